@@ -33,6 +33,28 @@ UNITS = [
          min_obligations=5, cover_functions=[], timeout=300,
          what="the undisplayed-frame comparator orders by descending SIGNED pts for any two timestamps less than 2^31 apart"),
 ]
+PD = "Source/Lib/Encoder/Codec/EbPictureDecisionProcess.c"
+PERIOD = {"kind": "slice", "file": PD, "func_re": r"^void\* picture_decision_kernel\(",
+          "first": "// If the Intra period length is 0, then introduce an intra for every picture",
+          "last": "// Determine if Pictures can be released from the Pre-Assignment Buffer", "name": "verif_c19_period",
+          "params": "SequenceControlSet *scs_ptr, PictureParentControlSet *pcs_ptr, EncodeContext *encode_context_ptr"}
+RELEASE = {"kind": "slice", "file": PD, "func_re": r"^void\* picture_decision_kernel\(",
+           "first": "// Determine if Pictures can be released from the Pre-Assignment Buffer",
+           "last": "context_ptr->total_number_of_mini_gops = 1;", "epilogue": ["}"], "name": "verif_c03_release",
+           "params": "SequenceControlSet *scs_ptr, PictureParentControlSet *pcs_ptr, EncodeContext *encode_context_ptr, PictureDecisionContext *context_ptr"}
+UNITS.append(Unit(uid="U03.4.eos_latch", prop="C03", harness="harness/c19_intra.c", entry="h_eos_latch", mode="plain", defines=["U03_EOS"],
+                  functions=["picture_decision_kernel [block slice: pre-assignment bookkeeping]"], slice_spec=[PERIOD, RELEASE],
+                  keep_bodies=["verif_c19_period"], min_obligations=10, cover_functions=[], timeout=600, mem_gb=16,
+                  what="the EOS flag of the incoming picture is latched into the pre-assignment buffer state (an earlier latch is "
+                       "kept) and the picture is counted exactly once",
+                  assumptions=["block slice: the rest of the kernel is dropped"]))
+UNITS.append(Unit(uid="U03.5.eos_flush", prop="C03", harness="harness/c19_intra.c", entry="h_eos_flush", mode="plain", defines=["U03_EOS"],
+                  functions=["picture_decision_kernel [block slice: mini-GOP release decision]"], slice_spec=[PERIOD, RELEASE],
+                  keep_bodies=["verif_c03_release"], min_obligations=10, cover_functions=[], timeout=600, mem_gb=16,
+                  what="release decision of the pre-assignment buffer: released exactly when it holds the EOS picture, an intra "
+                       "picture, a full mini-GOP, or in low delay; an EOS buffer is released in full whatever its fill level "
+                       "(else the tail of a stream would never be coded)",
+                  assumptions=["block slice: the statements of the release branch after the first mini-GOP set-up are dropped"]))
 META = {"C03": {
     "level": "proof",
     "explanation": "What the last kernel does to each picture and each temporal unit, on mechanical block slices of "
